@@ -243,10 +243,24 @@ func famC02(rn *Runner) {
 		for i := 0; i < n && !rn.TooMany(); i++ {
 			var e Expr
 			fam := "step-predicates"
-			switch rn.R.Intn(6) {
+			switch rn.R.Intn(7) {
 			case 0, 1:
 				p := g.Path(2, 7)
 				e = p
+			case 6:
+				// a predicate of element name tests on an attribute / namespace step
+				fam = "predicates-on-attribute-and-namespace-steps"
+				st := &Stp{Axis: pick(rn.R, []string{"attribute", "attribute", "namespace"}), Test: NodeTest{Kind: "any"}, Preds: []Expr{g.PrincipalPred()}}
+				if st.Axis == "attribute" {
+					st.Abbrev = rn.R.Chance(1, 2)
+					if rn.R.Chance(1, 3) {
+						st.Test = NodeTest{Kind: "name", Local: pick(rn.R, g.Locals)}
+					}
+				}
+				if rn.R.Chance(1, 3) {
+					st.Preds = append(st.Preds, g.Pred(0))
+				}
+				e = &EPath{Abs: true, Steps: []*Stp{{Axis: "descendant-or-self", Test: NodeTest{Kind: "node"}, Abbrev: true}, st}}
 			case 5:
 				// $w/step[$w[k]]: the bound node-set is read (and filtered) again while the step iterates over it
 				fam = "binding-reread"
